@@ -194,7 +194,7 @@ def run(ck, prog, ctx):
 
     # ------------------------------------------------------------------ AnnotationDelta
     ad = prog.body("ontology::comparison::AnnotationDelta::delta")
-    if ck.anchor("COVER", "AnnotationDelta::delta", ad):
+    if ck.anchor("COVER", "AnnotationDelta::delta", ad, private=True):
         agg = [s for _, s in ad.stmts() if s.k == "assign" and s.rv["k"] == "agg" and s.rv.get("adt", "").endswith("AnnotationDelta")]
         if not agg:
             ck.undecided("ROLE", "AnnotationDelta/lists", "struct construction not recognised", where=ad.where())
